@@ -7,6 +7,19 @@ import (
 	"crypto/sha512"
 )
 
+// an issuer whose RSA key may be larger than the 2048 bits the token type is defined for (the
+// blind signature is then longer than the 256-byte authenticator field): only for the client-side
+// robustness harnesses of C02
+func t2IssuerAnySize() *BasicPublicIssuer {
+	bits := 2048
+	if vBool("larger_rsa_key") {
+		bits = 3072
+	}
+	key, err := rsa.GenerateKey(rand.Reader, bits)
+	vAssume(err == nil)
+	return NewBasicPublicIssuer(key)
+}
+
 func t2Issuer() *BasicPublicIssuer {
 	key, err := rsa.GenerateKey(rand.Reader, 2048)
 	vAssume(err == nil)
